@@ -1,4 +1,4 @@
-(* C19 — client-library primitives keep their textbook guarantees (admission model over the regenerated client parameters). *)
+(* C19 — client-library primitives keep their textbook guarantees (acceptance model over the regenerated client parameters). *)
 From Coq Require Import NArith List Bool.
 From Slock Require Import Gen.GenClient Client.Prims Client.PrimsProofs Client.PrioQueue.
 Import ListNotations.
@@ -52,11 +52,11 @@ Proof. exact rwlock_writer_alone. Qed.
 Goal True. idtac "ASSUMPTIONS-OF C19_rwlock_writer_alone". Abort.
 Print Assumptions C19_rwlock_writer_alone.
 
-Theorem C19_rwlock_writer_admitted_only_when_free : forall ops r, Forall rw_op ops -> writer_req r ->
+Theorem C19_rwlock_writer_accepted_only_when_free : forall ops r, Forall rw_op ops -> writer_req r ->
   snd (try_lock (run [] ops) r) = Granted -> run [] ops = [].
-Proof. exact rwlock_writer_admitted_only_when_free. Qed.
-Goal True. idtac "ASSUMPTIONS-OF C19_rwlock_writer_admitted_only_when_free". Abort.
-Print Assumptions C19_rwlock_writer_admitted_only_when_free.
+Proof. exact rwlock_writer_accepted_only_when_free. Qed.
+Goal True. idtac "ASSUMPTIONS-OF C19_rwlock_writer_accepted_only_when_free". Abort.
+Print Assumptions C19_rwlock_writer_accepted_only_when_free.
 
 Theorem C19_rwlock_writer_excludes_all : forall ops h r, Forall rw_op ops ->
   In h (run [] ops) -> h_count h = rwlock_writer_count -> reader_req r \/ writer_req r ->
@@ -149,15 +149,15 @@ Proof.
 Qed.
 
 (* the hand-over clause in the newcomer window (db.go:2163-2176: waited := false when locked = 0): waiters queued, key
-   momentarily free, a newcomer NOT above the waiting maximum.  With the source as it is (switch false) it is admitted —
+   momentarily free, a newcomer NOT above the waiting maximum.  With the source as it is (switch false) it is accepted —
    the clause is refuted, replayed on the real server by checks/C19.py (signature monitor:priority:handover-barging);
    if LockDB.Lock consults the queue head (switch true) it is not. *)
 Theorem C19_prioritylock_handover_newcomer_window :
   (lock_newcomer_checks_wait_queue = false ->
-     newcomer_admitted 0 true false (prio_flag_of (prioritylock_timeout 5)) false true prioritylock_count prioritylock_count = true)
+     newcomer_accepted 0 true false (prio_flag_of (prioritylock_timeout 5)) false true prioritylock_count prioritylock_count = true)
   /\
   (lock_newcomer_checks_wait_queue = true ->
-     forall pf cur c, newcomer_admitted 0 true false pf false true cur c = false).
+     forall pf cur c, newcomer_accepted 0 true false pf false true cur c = false).
 Proof. exact priority_newcomer_window. Qed.
 Goal True. idtac "ASSUMPTIONS-OF C19_prioritylock_handover_newcomer_window". Abort.
 Print Assumptions C19_prioritylock_handover_newcomer_window.
@@ -186,12 +186,12 @@ Example C19_prioritylock_queue_nonvacuous :
 Proof. cbv zeta. repeat split. Qed.
 
 (* ---- Event.Wait (both modes) *)
-Theorem C19_event_wait_admission : forall s r t, find (r_id r) s = None ->
+Theorem C19_event_wait_acceptance : forall s r t, find (r_id r) s = None ->
   (event_wait_setmode_req t r -> fst (try_lock s r) = s /\ (snd (try_lock s r) = Granted -> locked s = 0)) /\
   (event_wait_clearmode_req t r -> fst (try_lock s r) = s /\ (snd (try_lock s r) = Granted -> locked s <> 0)).
-Proof. exact event_wait_admission. Qed.
-Goal True. idtac "ASSUMPTIONS-OF C19_event_wait_admission". Abort.
-Print Assumptions C19_event_wait_admission.
+Proof. exact event_wait_acceptance. Qed.
+Goal True. idtac "ASSUMPTIONS-OF C19_event_wait_acceptance". Abort.
+Print Assumptions C19_event_wait_acceptance.
 Example C19_event_nonvacuous :
   let ws := mkReq 50 event_setmode_wait_count event_setmode_wait_rcount false true false false in
   let wc := mkReq 51 event_clearmode_wait_count event_clearmode_wait_rcount false true (wait_unlock_flag_of (event_clearmode_wait_timeout 3)) false in
